@@ -1,6 +1,7 @@
 (* C08 - Uniquify makes every non-leaf instance unique without changing the design. Property theorems only. *)
 From Coq Require Import List.
-From SV Require Import Base.Base IR.State IR.NS IR.Ops Xform.Clone Xform.Xform Proofs.XformInv.
+From SV Require Import Base.Base IR.State IR.NS IR.Ops Xform.Clone Xform.Xform Proofs.Inv1a Proofs.Inv2a Proofs.Fresh Proofs.RefK Proofs.XformInv Proofs.UniqInv.
+Import ListNotations.
 
 (* "running uniquify again changes nothing": when every instance met by the breadth-first walk
    is already unique (or a leaf), the walk returns the state it was given, for any fuel *)
@@ -9,10 +10,45 @@ Theorem C08_unique_is_fixpoint : forall fuel x queue,
 Proof. exact uniquify_fixpoint. Qed.
 Print Assumptions C08_unique_is_fixpoint.
 
+(* "the netlist stays well-formed": in every state reachable by editing calls, with any counter
+   values and any fuel, a uniquify run that completes leaves every container listing exactly the
+   elements that name it as parent, once (the containment invariant of C01), and every definition
+   listing exactly the instances that reference it, once (the reference-set invariant of C02) -
+   through every Definition.clone, rename, add_definition and reference change of the walk *)
+Theorem C08_keeps_well_formed : forall ops u f fuel n x',
+  uniquify fuel (mkX (run ops init) u f) n = (x', None) -> Inv1a (st x') /\ Inv2a (st x').
+Proof. exact uniquify_reachable. Qed.
+Print Assumptions C08_keeps_well_formed.
+
+(* the same as a step invariant, from any state that satisfies it *)
+Theorem C08_keeps_well_formed_from : forall fuel x n x',
+  Inv1a (st x) /\ Inv2a (st x) /\ Fresh (st x) /\ RefK (st x) ->
+  uniquify fuel x n = (x', None) ->
+  Inv1a (st x') /\ Inv2a (st x') /\ Fresh (st x') /\ RefK (st x').
+Proof. exact uniquify_inv. Qed.
+Print Assumptions C08_keeps_well_formed_from.
+
+(* non-vacuity: a top cell with two instances of one non-leaf cell; uniquify completes, clones the
+   cell once (the copy is inserted right after the original), re-points the first instance, and
+   the result is clean while the start was not *)
+Example C08_sample :
+  let ops := [ ONew KNetlist None []; OCreate RLibs 0 None [] 0 None; OCreate RDefs 1 None [] 0 None;
+               OCreate RPorts 2 None [] 1 None; OCreate RDefs 1 None [] 0 None; OCreate RChildren 5 None [] 0 (Some 2);
+               OCreate RCables 5 None [] 1 None; OConnect 8 (POut 6 4) None;
+               OCreate RDefs 1 None [] 0 None; OCreate RChildren 9 None [] 0 (Some 5); OCreate RChildren 9 None [] 0 (Some 5);
+               OSetTop 0 (TopDef 9) ] in
+  let s := run ops init in
+  let r := uniquify 20 (mkX s 0 0) 0 in
+  let s' := st (fst r) in
+  snd r = None /\ next s = 13 /\ next s' = 17 /\ kids s' RDefs 1 = [2; 5; 13; 9] /\
+  iref s' 10 = Some 13 /\ iref s' 11 = Some 5 /\ drefs s' 5 = [11] /\ drefs s' 13 = [10] /\ drefs s' 2 = [6; 16] /\
+  uniq_clean 20 s (kids s RChildren 9) = false /\ uniq_clean 20 s' (kids s' RChildren 9) = true.
+Proof. vm_compute. repeat split. Qed.
+
 (* Full statement (same elaborated design, all non-leaf instances unique, fresh names): checked on
    every run by the correspondence of the uniquify model (BFS over Definition.clone + add_definition
    + rename + reference change) with the implementation and by the union-find elaboration oracle;
-   the Coq proof is not finished. *)
+   the Coq proof covers the well-formedness clause (above) and the fixpoint clause. *)
 Definition C08_full : Prop := forall fuel x n x',
   uniquify fuel x n = (x', None) ->
   forall t d, top (st x') n = Some t -> iref (st x') t = Some d ->
